@@ -96,3 +96,29 @@ Theorem C02_resolver_progress_measure :
     DepMeasure.dmu c n d' < DepMeasure.dmu c n d.
 Proof. exact DepMeasure.dstep_decreases. Qed.
 Print Assumptions C02_resolver_progress_measure.
+
+(* ---- REFUTED on the code as it is: witnesses by computation on the executable models
+   (Proofs/Refute.v); each is a recorded finding (KNOWN_FINDINGS.txt) ---- *)
+From EL Require Model.Exec Model.ExecInv Model.StepExec Model.FileExec Model.FileSpec Model.CacheExec Proofs.FileSafe Proofs.FileRefute Proofs.CacheSafe Proofs.Refute.
+Module RefutedC02.
+Import Exec ExecInv StepExec FileExec FileSpec CacheExec FileSafe FileRefute CacheSafe Refute.
+Import ListNotations.
+
+(* finding D24: shutdown(wait=True) after shutdown(wait=False) returns at once although the submitted call has not finished *)
+Theorem C02_refuted_wait_after_nowait_returns_early :
+  (erun d24_cfg d24_sched0 d24_init = Some d24_s0
+   /\ main d24_s0 = MEnd /\ ops d24_s0 = []
+   /\ outs d24_s0 = [XOk; XOk; XOk]                                   (* both shutdowns returned *)
+   /\ getf d24_s0 1 = FPending /\ fdone (getf d24_s0 1) = false       (* the call has not even started *)
+   /\ map wp (ws d24_s0) = [WBegin]
+   /\ reach d24_cfg d24_init d24_s0)
+  /\
+  (erun d24_cfg d24_sched1 d24_init = Some d24_s1
+   /\ main d24_s1 = MEnd /\ ops d24_s1 = []
+   /\ outs d24_s1 = [XOk; XOk; XOk]
+   /\ getf d24_s1 1 = FRunning /\ fdone (getf d24_s1 1) = false       (* ... or is running *)
+   /\ map wp (ws d24_s1) = [WRecv 1] /\ map pp (ps d24_s1) = [PBegin]
+   /\ reach d24_cfg d24_init d24_s1).
+Proof. exact block_wait_after_nowait_returns_early. Qed.
+Print Assumptions C02_refuted_wait_after_nowait_returns_early.
+End RefutedC02.
